@@ -660,6 +660,13 @@ def job_corr_run(arg):
     """One real nonparametric client run -> 'corr' records (one per interval level)."""
     seed, n_rep, n_non, pis, robust, features = arg
     pre, cur = gate_election(n_rep, n_non, seed, lo=20, hi=250)
+    extra = {}
+    if seed % 2 == 0:
+        # fixed effects on the classification, one class held by a single reporting unit: the seeded split may put it
+        # among the calibration units only - it is a calibration unit like any other (seeded change C04_H)
+        rep_ids = cur[cur.percent_expected_vote >= 100].geographic_unit_fips.tolist()
+        pre.loc[pre.geographic_unit_fips == rep_ids[seed % len(rep_ids)], "county_classification"] = "k9"
+        extra["fixed_effects"] = {"county_classification": ["all"]}
     with CorrRecorder() as rec:
         try:
             synth.run_client(
@@ -671,6 +678,7 @@ def job_corr_run(arg):
                 features=tuple(features),
                 model_parameters={"robust": bool(robust)},
                 aggregates=["postal_code", "unit"],
+                **extra,
             )
         except Exception as e:  # noqa: BLE001
             return [{"kind": "raised", "exc": type(e).__name__, "msg": str(e)[:300], "args": list(arg), "tb": traceback.format_exc()[-1200:]}]
